@@ -9,6 +9,7 @@ import (
 	"os"
 	"path/filepath"
 
+	"github.com/golang/protobuf/proto"
 	"github.com/itchio/wharf/pwr/overlay"
 
 	"verif/lib/wh"
@@ -21,14 +22,15 @@ type seedDef struct {
 	SigOnly  bool // only its signature stream is used
 }
 
-// Bulk data is kept small on purpose: DATA ops of a few bytes, bsdiff series of
-// ~3 KB; old files may be large (BLOCK_RANGE ops cost nothing in the stream).
+// Bulk data is kept small on purpose: DATA ops of a few bytes, a 0.4 KB bsdiff series;
+// old files may be large (BLOCK_RANGE ops cost nothing in the stream).
 var seedDefs = []seedDef{
 	// BLOCK_RANGE (span 2) + DATA in one series; in the other a BLOCK_RANGE that is not
 	// a whole-file op and ends on the short last block. (wsync never matches the last
 	// 64 KiB of a file at an unaligned offset, so small patches have aligned shapes;
-	// the swap mutation produces the other op orders.)
-	{Name: "mixed", Old: wh.Build{wh.F("a", "A.B.C/100")}, New: wh.Build{wh.F("a", "A.B.=xyz"), wh.F("d", "B.C/100")}},
+	// the swap mutation produces the other op orders.) The old build also has an empty
+	// file, so that "each valid index" reaches a zero-length target.
+	{Name: "mixed", Old: wh.Build{wh.F("a", "A.B.C/100"), wh.F("e", "")}, New: wh.Build{wh.F("a", "A.B.=xyz"), wh.F("d", "B.C/100")}},
 	// whole-file ops: rename, untouched file; plus a new empty file
 	{Name: "whole", Old: wh.Build{wh.F("a", "A"), wh.F("b", "B/1000")}, New: wh.Build{wh.F("c", "A"), wh.F("b", "B/1000"), wh.F("d", "")}},
 	// several files, multi-op series, an EMPTY old file, fresh file, tiny change
@@ -38,7 +40,7 @@ var seedDefs = []seedDef{
 	// no old build at all: the target container has no files
 	{Name: "noold", Old: wh.Build{}, New: wh.Build{wh.F("a", "=abc")}},
 	// optimized patch: one bsdiff series (header + controls) and an untouched file
-	{Name: "bsdiff", Old: wh.Build{wh.F("a", "r1/1500.r2/1500"), wh.F("k", "=keep")}, New: wh.Build{wh.F("a", "r1/1500.=INS.r2/1500"), wh.F("k", "=keep")}, Optimize: true},
+	{Name: "bsdiff", Old: wh.Build{wh.F("a", "r1/200.r2/200"), wh.F("k", "=keep")}, New: wh.Build{wh.F("a", "r1/200.=INS.r2/200"), wh.F("k", "=keep")}, Optimize: true},
 	// signature only: a 5-block file, an empty file, a tiny file
 	{Name: "sig5", Old: wh.Build{}, New: wh.Build{wh.F("a", "A.B.C.D.E/100"), wh.F("e", ""), wh.F("s", "=x")}, SigOnly: true},
 }
@@ -107,30 +109,38 @@ func (ss *seedSet) get(name string) *seed {
 	must(err)
 	s.flatSig = flattenSig(ds)
 
-	// self-checks of the harness codec (a failure here is a harness error)
-	re, err := s.flatPatch.encode(s.flatPatch.msgs, "none", nil)
-	must(err)
-	if !bytes.Equal(re, s.patch["none"]) {
-		panic(fmt.Sprintf("seed %s: re-encoding the unmutated patch does not reproduce the real stream (%d vs %d bytes)", name, len(re), len(s.patch["none"])))
-	}
-	viaLib, err := dp.Encode("none")
-	must(err)
-	if !bytes.Equal(viaLib, re) {
-		panic(fmt.Sprintf("seed %s: flat encoding differs from wh.(*Patch).Encode", name))
-	}
-	reSig, err := s.flatSig.encode(s.flatSig.msgs, "none", &hdrSpec{})
-	must(err)
-	sigLib, err := ds.Encode("none")
-	must(err)
-	if !bytes.Equal(reSig, s.sig["none"]) || !bytes.Equal(sigLib, reSig) {
-		panic(fmt.Sprintf("seed %s: re-encoding the unmutated signature does not reproduce the real stream", name))
-	}
-	for _, c := range comps[1:] {
-		dpc, err := wh.DecodePatch(s.patch[c])
+	// self-checks of the harness codec (a failure here is a harness error): framing
+	// the unmutated message list must give a stream that decodes to the same
+	// containers and messages as the real writer's stream, under every framing,
+	// and must agree byte for byte with wh.(*Patch).Encode / wh.(*Sig).Encode.
+	for _, c := range comps {
+		re, err := s.flatPatch.encode(s.flatPatch.msgs, c, nil)
 		must(err)
-		a, _ := dpc.Encode("none")
-		if !bytes.Equal(a, re) {
-			panic(fmt.Sprintf("seed %s: %s patch decodes to a different message list than the uncompressed one", name, c))
+		viaLib, err := dp.Encode(c)
+		must(err)
+		if !bytes.Equal(viaLib, re) {
+			panic(fmt.Sprintf("seed %s/%s: flat encoding differs from wh.(*Patch).Encode", name, c))
+		}
+		for _, stream := range [][]byte{re, s.patch[c]} {
+			d, err := wh.DecodePatch(stream)
+			must(err)
+			if !sameFlat(flattenPatch(d), s.flatPatch) {
+				panic(fmt.Sprintf("seed %s/%s: patch does not decode to the seed's message list", name, c))
+			}
+		}
+		reSig, err := s.flatSig.encode(s.flatSig.msgs, c, nil)
+		must(err)
+		sigLib, err := ds.Encode(c)
+		must(err)
+		if !bytes.Equal(sigLib, reSig) {
+			panic(fmt.Sprintf("seed %s/%s: flat encoding differs from wh.(*Sig).Encode", name, c))
+		}
+		for _, stream := range [][]byte{reSig, s.sig[c]} {
+			d, err := wh.DecodeSig(stream)
+			must(err)
+			if !sameFlat(flattenSig(d), s.flatSig) {
+				panic(fmt.Sprintf("seed %s/%s: signature does not decode to the seed's message list", name, c))
+			}
 		}
 	}
 	if def.Optimize {
@@ -146,6 +156,21 @@ func (ss *seedSet) get(name string) *seed {
 	}
 	ss.seeds[name] = s
 	return s
+}
+
+func sameFlat(a, b *flat) bool {
+	if !proto.Equal(a.source, b.source) || len(a.msgs) != len(b.msgs) {
+		return false
+	}
+	if (a.target == nil) != (b.target == nil) || (a.target != nil && !proto.Equal(a.target, b.target)) {
+		return false
+	}
+	for i := range a.msgs {
+		if !proto.Equal(a.msgs[i], b.msgs[i]) {
+			return false
+		}
+	}
+	return true
 }
 
 func must(err error) {
